@@ -103,6 +103,11 @@ func genC16Message(r *Rand) []byte {
 func c16Gen(r *Rand, tier string, i int) Scenario {
 	sc := &C16Scenario{}
 	sc.Sched = GenSched(r)
+	// the oracle compares a coloured with an uncoloured run of the same
+	// scenario and schedule; the two execute different statements, so
+	// statement-level preemption would give them different interleavings
+	// (records of several servers in a different order: a false alarm)
+	sc.Sched.PreemptM = 0
 	sc.Client = PickOf(r, "cat", "cat", "grep", "tail", "map", "map", "health")
 	ns := PickOf(r, 1, 1, 1, 2, 3)
 	for k := 0; k < ns; k++ {
